@@ -19,7 +19,10 @@ RULE = ('S1: every string over {(,),and,or,not,leaf}^<=n that the reference '
         'by the reference recogniser; S4 every character string up to the '
         'length bound over a 13-character hostile alphabet; S5 every '
         'JSON/YAML value type as a rule value alone and inside list shapes '
-        'through from_dict, JSON text, YAML text and a policy file.  '
+        'through from_dict, JSON text, YAML text and a policy file; S6 every '
+        'rejected string of <=5 tokens as the check string of a registered '
+        'default (plain, as the new and as the old side of a deprecated pair '
+        'merged with enforce_new_defaults off).  '
         'Non-trivial = at least two tokens/characters or a container value.')
 ASSUMPTIONS = [
     'reference lexer/recogniser mc/ref/lang.py; tokens whose quote reading is '
@@ -109,6 +112,8 @@ def plan(tier, seed):
                          'weight': (hi - lo) * 4.0})
     for i in range(8):
         jobs.append({'space': 'S5', 'shard': i, 'of': 8, 'weight': 20000})
+    for i in range(16):
+        jobs.append({'space': 'S6', 'shard': i, 'of': 16, 'weight': 30000})
     for j in jobs:
         j['tier'] = tier
     return jobs
@@ -437,6 +442,78 @@ def run_S4(cx, job):
         _check_text(cx, 'S4', text, S4_CREDS, key='S4|' + _shape(text),
                     nontrivial=n >= 2)
     cx.acc.sample('S4', text)
+
+
+# ---- S6 non-sentences as check strings of registered defaults ------------------
+
+def run_S6(cx, job):
+    """Every rejected token string of <=5 tokens (leaves spelled '@', the
+    most dangerous reading) as the check string of a registered default:
+    plain; as the NEW default of a deprecated pair; as the OLD (deprecated)
+    check string - with enforce_new_defaults off, so that the two strings
+    are merged.  The non-sentence must count as deny: the effective policy
+    is exactly the other, well-formed side."""
+    P = cx.policy
+    n_max = 5 if job['tier'] == 'quick' else 6
+    idx = 0
+    for n in range(1, n_max + 1):
+        for x in range(6 ** n):
+            toks = []
+            y = x
+            for _ in range(n):
+                toks.append(SIG[y % 6])
+                y //= 6
+            if _is_sentence(toks):
+                continue
+            idx += 1
+            if idx % job['of'] != job['shard']:
+                continue
+            text = ' '.join('@' if t == 'L' else t for t in toks)
+            for how in ('plain', 'as-new', 'as-old'):
+                conf = world.new_conf(enforce_new_defaults=False)
+                enf = P.Enforcer(conf)
+                enf.suppress_deprecation_warnings = True
+                try:
+                    if how == 'plain':
+                        d = P.RuleDefault('p', text)
+                        other = None
+                    elif how == 'as-new':
+                        d = P.RuleDefault('p', text, deprecated_rule=(
+                            P.DeprecatedRule('old:p', 'role:legacy',
+                                             deprecated_reason='r',
+                                             deprecated_since='s')))
+                        other = 'legacy'
+                    else:
+                        d = P.RuleDefault('p', 'role:fresh', deprecated_rule=(
+                            P.DeprecatedRule('old:p', text,
+                                             deprecated_reason='r',
+                                             deprecated_since='s')))
+                        other = 'fresh'
+                    enf.register_default(d)
+                except Exception as e:
+                    cx.acc.violation('S6|%s|register-raises' % how,
+                                     'registering %r raised %r' % (text, e),
+                                     {'rule': text, 'how': how}, 'registers',
+                                     repr(e), 'S6')
+                    continue
+                cx.acc.case('S6', n >= 2)
+                for roles in ([], ['admin'], ['legacy'], ['fresh']):
+                    cx.acc.ev()
+                    got = world.decide(enf, 'p', {}, {'roles': roles,
+                                                      'is_admin': True})
+                    exp = other is not None and other in roles
+                    if got != ('ok', exp):
+                        cx.acc.violation(
+                            'S6|%s|%s' % (how, 'allows' if got == ('ok', True)
+                                          else 'denies' if got[0] == 'ok'
+                                          else 'raises ' + got[1]),
+                            'registered default with non-sentence %r (%s) '
+                            'decides %r for roles %r, expected %r' %
+                            (text, how, got, roles, exp),
+                            {'rule': text, 'how': how, 'roles': roles}, exp,
+                            got, 'S6')
+            cx.acc.outcome('S6')
+    cx.acc.sample('S6', text)
 
 
 # ---- S5 non-rule values ------------------------------------------------------------
